@@ -240,7 +240,10 @@ func checkC09(ix *index, add addFn) {
 	firstOK := -1
 	for _, k := range ks {
 		if conns[k].accepted && conns[k].activeAt >= 0 {
-			firstOK = conns[k].activeAt
+			// the first connection has succeeded once its accepting CONNACK has
+			// reached the client (a context that ends after that arrives "while
+			// connected", even if Active is announced a little later)
+			firstOK = conns[k].connack
 			break
 		}
 	}
